@@ -10,8 +10,9 @@ relocatable file or linked executable, 0-3 sections with their names and lengths
 they hold, 0-5 symbols (local/global, func/object/no type, defined/undefined/absolute), 0-4 relocations, entry
 symbol or none.  Every VALUE is symbolic and decided by the solver: all section bytes, section and image
 addresses, symbol values and sizes, relocation offsets and addends, the probed virtual address; section
-alignments marked "S" range over {1,2,4,8,16} and gaps between the sections of an image marked "S" over 0..3
-(small domains the engine forks over, because they move file offsets).
+alignments marked "S" range over {1,2,4,8,16}, gaps between the sections of an image marked "S" over 0..3 and the
+offset of an image address inside its 4 KiB page over a stated set (small domains the engine forks over, because
+they move file offsets; the page number of an image address is symbolic over the whole range).
 
 The file the REAL writer produced (a byte string with symbolic elements) is handed to an INDEPENDENT reader
 written from the ELF specification (ref/elfspec.py); obligations per path of the writer (see ElfHarness.post):
@@ -51,17 +52,24 @@ ALIGNS = [1, 2, 4, 8, 16]
 RESIDUES = {"quick": [0, 1, 0x7FC, 0xFFF],
             "thorough": [0, 1, 2, 3, 4, 8, 0x10, 0x100, 0x234, 0x7FF, 0x800, 0x801, 0xC00, 0xFF0, 0xFFC, 0xFFF]}
 BOUNDS = {
-    "quick": {"shapes": "per machine 9 hand-written shapes (relocatable: empty / 1 section / 3 sections with undefined, "
-                        "absolute and same-named symbols, x86_64 with 4 relocations in two sections; executable: 1 image "
-                        "with 2 sections, 2 images + a section outside every image, no entry symbol, empty) + 2 generated",
-              "section lengths": "0..9", "values": "every section byte; addresses, symbol values and sizes, relocation "
-              "offsets over the whole 32/64-bit range of the ELF class; addends over the signed range; probe address "
-              "over the whole address space",
-              "symbolic alignments": "{1,2,4,8,16}, at most 2 sections per shape", "symbolic gaps": "0..3, at most 1 per shape"},
-    "thorough": {"shapes": "the quick shapes + 30 generated per machine (0-3 sections, lengths 0..33, 0-5 symbols, "
+    "quick": {"shapes": "per machine 9 hand-written shapes (relocatable: empty / 1 section / 3 sections with undefined and "
+                        "same-named symbols / absolute symbol / relocations: x86_64 two shapes with 4 relocations each, other "
+                        "machines 1 relocation that must be refused; executable: empty / 1 image with 2 sections / 2 images + a "
+                        "section outside every image / no entry symbol) + 2 generated (seeded)",
+              "section lengths": "0..9",
+              "values": "every section byte; section addresses, symbol values and sizes, relocation offsets over the whole "
+                        "32/64-bit range of the ELF class; addends over the signed range; probe address over the whole address space",
+              "image addresses": "page number symbolic over the whole range, offset inside the 4 KiB page from "
+                                 "{0, 1, 0x7fc, 0xfff} (second image: {0, 1}); both orders of two images",
+              "symbolic alignments": "{1,2,4,8,16}, at most 2 sections per shape", "symbolic gaps": "0..3, at most 1 per shape",
+              "file layouts per shape": "<= 100"},
+    "thorough": {"shapes": "the quick shapes + 24 generated per machine (0-3 sections, lengths 0..33, 0-5 symbols, "
                            "0-4 relocations, 0-2 images)",
                  "section lengths": "0..33", "values": "as quick",
-                 "symbolic alignments": "{1,2,4,8,16}, at most 2 sections per shape", "symbolic gaps": "0..3, at most 2 per shape"},
+                 "image addresses": "page number symbolic over the whole range, offset inside the page from 16 values "
+                                    "(0,1,2,3,4,8,0x10,0x100,0x234,0x7ff,0x800,0x801,0xc00,0xff0,0xffc,0xfff; second image: the first 5)",
+                 "symbolic alignments": "{1,2,4,8,16}, at most 2 sections per shape", "symbolic gaps": "0..3, at most 2 per shape",
+                 "file layouts per shape": "<= 400"},
 }
 OUTSIDE = ["acceptance by 'independent ELF tools' is represented by the specification-derived reader ref/elfspec.py; GNU readelf "
            "only validates that reader on concrete files (selftest job)",
@@ -72,9 +80,13 @@ OUTSIDE = ["acceptance by 'independent ELF tools' is represented by the specific
            "there (Architecture.get_reloc_type raises NotImplementedError; checked that this is what happens)",
            "relocation semantics (that ppci's rel32/abs64 compute what R_X86_64_PC32/_64 compute) belong to C10/C11; here "
            "only the psABI number for the declared kind",
-           "objects the ELF format cannot express: alignments that are not powers of two, section addresses that are not "
-           "multiples of the alignment, values beyond the ELF class's word size, more than 0xff00 sections, overlapping images "
-           "(premises)", "more than 3 sections / 2 images / 5 symbols / 4 relocations; sections longer than 33 bytes",
+           "objects the ELF format cannot express: alignments that are not powers of two, values beyond the ELF class's word "
+           "size, more than 0xff00 sections, overlapping images (premises); 'sh_addr is a multiple of sh_addralign' is a "
+           "property of the object handed to the writer and is not judged",
+           "image addresses: all pages, but only the listed offsets inside a page (a writer that keeps p_offset congruent to "
+           "p_vaddr has a different file layout for each of the 4096 offsets)",
+           "x86_64 relocation kinds for which ppci declares no ELF number (jmp8 of the assembler-only short jump): the writer "
+           "raises KeyError, no file is written", "more than 3 sections / 2 images / 5 symbols / 4 relocations; sections longer than 33 bytes",
            "that the linker produces images of the assumed form is C12's topic; here linked objects are built through the "
            "ObjectFile/Image API in the form Linker.layout_sections produces (the selftest job links real programs)"]
 ASSUMPTIONS = ["ELF as specified in the System V gABI (chapters 4, 5), ELF-64 Object File Format 1.5, AMD64 psABI table 4.10 "
@@ -168,9 +180,8 @@ def describe(sh):
 
 def _pow2(mk, name, spec):
     if spec == "S":
-        a = mk.int(name, 1, 16)
-        mk.assume(sym_or(*[a == v for v in ALIGNS]))
-        return int(a)          # small declared domain: the engine forks (file offsets depend on it)
+        e = mk.int(name + ".log2", 0, 4)
+        return 1 << int(e)     # small declared domain {1,2,4,8,16}: the engine forks (file offsets depend on it)
     return int(spec)
 
 
@@ -187,6 +198,7 @@ class ElfHarness(Harness):
     max_decisions = 400
     timeout_ms = 60000
     prove_timeout_ms = 120000
+    prove_arrays = False       # obligations are pure bit-vector formulas (skips the per-obligation scan for array terms)
 
     def __init__(self, shape, idx=0, residues=None):
         self.shape = shape
@@ -222,11 +234,13 @@ class ElfHarness(Harness):
             # set of residues: a writer that keeps p_offset congruent to p_vaddr has one file layout per residue)
             page = mk.int(f"img{k}.page", 0, (M >> 12) - 1)
             res = mk.int(f"img{k}.residue", 0, 4095)
-            mk.assume(sym_or(*[res == r for r in self.residues]))
+            mk.assume(sym_or(*[res == r for r in (self.residues if k == 0 else self.residues[:len(self.residues) // 4 + 1])]))
             base = page * 4096 + res
             mk.assume(base + off <= M)
             for i, o in zip(members, offs):
                 addr[i] = base + o
+                if o + secs[i]["len"] == off and secs[i]["len"] == 0:
+                    mk.assume(addr[i] <= M - 1)        # premise: also an empty section's address exists in this ELF class
             imgs.append(dict(name=im["n"], address=base, size=off, members=members))
         for a in range(len(imgs)):
             for b in range(a + 1, len(imgs)):                   # premise: images do not overlap
@@ -559,6 +573,12 @@ def hand_shapes(march):
                           _sym("v", "local", "object", "data"), _sym("gv", "global", "object", None, "und")],
                     rels=[dict(t="rel32", y=1, s="code"), dict(t="abs64", y=2, s="data"), dict(t="rel32", y=0, s="code"),
                           dict(t="abs32", y=3, s="code")] if x86 else [dict(t="rel32" if march != "arm" else "b_imm24", y=1, s="code")]))
+    if x86:
+        out.append(dict(march=march, kind="rel", secs=[dict(n="code", len=7, al="S")],
+                        syms=[_sym("loop", "local", "object", "code"), _sym("puts", "global", "func", None, "und"),
+                              _sym("table", "global", "object", None, "und")],
+                        rels=[dict(t="rel32", y=1, s="code"), dict(t="absaddr64", y=2, s="code"), dict(t="rel32", y=2, s="code"),
+                              dict(t="rel32", y=0, s="code")]))
     # linked executables
     out.append(dict(march=march, kind="exe", secs=[], syms=[], rels=[], imgs=[]))
     out.append(dict(march=march, kind="exe",
@@ -577,7 +597,7 @@ def hand_shapes(march):
     return out
 
 
-def gen_shape(rng, march, maxlen, max_s_gap):
+def gen_shape(rng, march, maxlen, max_s_gap, nres=4, budget=100):
     kind = rng.choice(["rel", "exe"])
     names = ["code", "data", "bss", "rodata", ".text"]
     rng.shuffle(names)
@@ -616,6 +636,10 @@ def gen_shape(rng, march, maxlen, max_s_gap):
             rels.append(dict(t=rng.choice(["rel32", "abs64", "abs32", "absaddr64"]), y=rng.randrange(len(syms)),
                              s=rng.choice(secs)["n"]))
     sh = dict(march=march, kind=kind, secs=secs, syms=syms, rels=rels)
+    while fork_product(dict(sh, imgs=imgs), nres) > budget:      # keep the number of file layouts per shape bounded
+        cands = [(s_, key) for s_ in secs for key in ("al", "gap") if s_.get(key) == "S"]
+        s_, key = cands[-1]
+        s_[key] = 4 if key == "al" else 0
     if kind == "exe":
         sh["imgs"] = imgs
         defined = [n for n, y in enumerate(syms) if y["d"] == "def"]
@@ -624,13 +648,28 @@ def gen_shape(rng, march, maxlen, max_s_gap):
     return sh
 
 
+def fork_product(sh, nres):
+    """upper bound on the number of file layouts (paths) of a shape once the writer keeps p_offset congruent to p_vaddr"""
+    n = 1
+    for s in sh["secs"]:
+        n *= 5 if s.get("al") == "S" else 1
+        n *= 4 if s.get("gap") == "S" and s.get("img") is not None else 1
+    nimg = len(sh.get("imgs", [])) if sh["kind"] == "exe" else 0
+    if nimg >= 1:
+        n *= nres
+    if nimg >= 2:
+        n *= 2 * (nres // 4 + 1)
+    return n
+
+
 def shapes(tier, seed):
     out = []
     rng = random.Random(1700 + int(seed))
     for march in MACHINES:
         out += hand_shapes(march)
-        for _ in range(2 if tier == "quick" else 30):
-            out.append(gen_shape(rng, march, 9 if tier == "quick" else 33, 1 if tier == "quick" else 2))
+        for _ in range(2 if tier == "quick" else 24):
+            out.append(gen_shape(rng, march, 9 if tier == "quick" else 33, 1 if tier == "quick" else 2,
+                                 nres=len(RESIDUES[tier]), budget=100 if tier == "quick" else 400))
     return out
 
 
